@@ -171,6 +171,34 @@ def tree_rec(node):
             tuple(tree_rec(c) for c in node))
 
 
+def named_text(prods, nts, lm, layout):
+    """the same grammar with every right-hand-side symbol named, so that the
+    default `obj` action creates objects carrying _pg_start/_end_position"""
+    by = {}
+    for l, r in prods:
+        by.setdefault(l, []).append(
+            " ".join(f"n{j}={x}" for j, x in enumerate(r)) if r else "EMPTY")
+    lines = [f"{l}: " + " | ".join(by[l]) + ";" for l in nts if l in by]
+    text = "\n".join(lines) + "\n"
+    base = spaces.render_grammar(prods, nts, lm)
+    if "terminals" in base:
+        text += "terminals\n" + base.partition("terminals\n")[2]
+    return with_layout(text, layout)
+
+
+def obj_positions(x, node, out):
+    """pairs (object span, node span) for every object / node pair"""
+    if hasattr(x, "_pg_start_position") and not node.is_term():
+        out.append(((x._pg_start_position, x._pg_end_position),
+                    (node.start_position, node.end_position)))
+        kids = list(node)
+        names = x._pg_children_names
+        for j, c in enumerate(kids):
+            nm = f"n{j}"
+            if nm in names:
+                obj_positions(getattr(x, nm), c, out)
+
+
 def run_unit(u):
     sp = SPACES[u["space"]]
     nts, ts = sp["nts"], sp["ts"]
@@ -191,6 +219,7 @@ def run_unit(u):
         used_nts = sorted({l for l, _ in ordered})
         used_ts = sorted({x for _, r in ordered for x in r if x in ts})
         parsers = []
+        objp = None
         try:
             g = grammar_from_string(text)
             parsers.append(("glr", build("glr", g, mon, tag=(gi, "glr"), ws=ws),
@@ -209,11 +238,38 @@ def run_unit(u):
                 pt = build("lr", ga, mon, tag=(gi, "lrt", ps), actions=acts,
                            build_tree=True, **o)
                 parsers.append((f"lr/ps={int(ps)}", p, (pa, pt)))
+                if ps and any(r for _, r in ordered) and \
+                        all(len(set(r)) == len(r) or True for _, r in ordered):
+                    try:
+                        ntext = named_text(ordered, nts, lm, u["layout"])
+                        po = build("lr", grammar_from_string(ntext), mon,
+                                   tag=(gi, "obj"), **o)
+                        pot = build("lr", grammar_from_string(ntext), mon,
+                                    tag=(gi, "objt"), build_tree=True, **o)
+                        objp = (po, pot)
+                    except (Exception, BudgetExceeded):   # noqa: BLE001
+                        objp = None
             except (Exception, BudgetExceeded):  # noqa: BLE001
                 pass
         for s in inputs:
             if not ref.analyse(s).sentence:
                 continue
+            if objp is not None:
+                oo = parse(objp[0], s, mon)
+                ot = parse(objp[1], s, mon)
+                if oo.kind == "ok" and ot.kind == "ok":
+                    pairs = []
+                    obj_positions(oo.value, ot.value, pairs)
+                    bad = [p_ for p_ in pairs if p_[0] != p_[1]]
+                    st["obj_nodes"] += len(pairs)
+                    if bad:
+                        judge.deviation(
+                            "LR-POSITIONS", f"{lm}/{u['layout']}/obj", gk, s,
+                            "tree positions wrong: object created by `obj` "
+                            "carries other positions than the tree node",
+                            {"pairs": [list(map(str, b)) for b in bad[:5]]},
+                            {"grammar": named_text(ordered, nts, lm, u["layout"]),
+                             "parser": "lr", "options": {"ws": ws}, "input": s})
             for name, p, pa in parsers:
                 cfg = f"{lm}/{u['layout']}/{name}"
                 case = {"grammar": text, "parser": name.split("/")[0],
@@ -306,6 +362,7 @@ def evidence(total, tier, seed, complete):
         "domain": [{k: str(v) for k, v in row.items()}
                    for row in plan(tier, seed)],
     }
+    cov["object_nodes_compared"] = total.get("obj_nodes", 0)
     return cov, ["ignore_case is outside this property's quantifier",
                  "bounded: grammars <= k productions, inputs <= n characters"]
 
